@@ -87,7 +87,7 @@ impl Scenario for C10 {
             + self.trunc_plans(tier)
             + match tier {
                 Tier::Quick => 60_000,
-                Tier::Thorough => 1_500_000,
+                Tier::Thorough => 4_000_000,
             }
     }
     fn plan(&self, seed: u64, idx: u64, tier: Tier) -> Plan {
